@@ -261,6 +261,96 @@ def case(ctx, i, rng):
     nested(ctx, rng, mod)
     class_change(ctx, rng, mod)
     two_sources(ctx, rng, mod)
+    dict_kwargs_forms(ctx, rng, mod)
+    if i % 6 == 3:
+        late_subclass(ctx, i, rng, mod)
+
+
+def dict_kwargs_forms(ctx, rng, mod):
+    """dict_kwargs given by dotted sub-options, before / between / after other sub-options of the same argument (and with the
+    class named again at the end): the same configuration as the explicit spec, and the constructor receives all of it"""
+    M = mod.__name__
+    nested_pos = rng.random() < 0.35
+    ia = {"p0": rng.randrange(50)}
+    dk = {"anything": rng.randrange(9), "more": rng.choice(["m", "n o"])}
+    loose = {"class_path": f"{M}.Loose", "init_args": dict(ia), "dict_kwargs": dict(dk)}
+    p = ArgumentParser(exit_on_error=False)
+    if nested_pos:
+        p.add_argument("--a", type=mod.Holder)
+        explicit = call(p.parse_object, {"a": {"class_path": f"{M}.Holder", "init_args": {"child": loose, "n": 2}}})
+        pre, head, tail, path = "--a.child", ["--a=Holder"], ["--a.n=2"], ("a",)
+    else:
+        p.add_argument("--a", type=mod.Base)
+        explicit = call(p.parse_object, {"a": loose})
+        pre, head, tail, path = "--a", [], [], ("a",)
+    items = [rng.choice([f"{pre}.p0={ia['p0']}", f"{pre}.init_args.p0={ia['p0']}"]), f"{pre}.dict_kwargs.anything={dk['anything']}", f"{pre}.dict_kwargs.more={dk['more']}"]
+    rng.shuffle(items)
+    order = "kwargs-" + ("last" if items[0].split("=")[0].endswith("p0") else "first" if items[-1].split("=")[0].endswith("p0") else "around")
+    again = rng.random() < 0.3
+    argv = head + [f"{pre}=Loose"] + items + ([f"{pre}=Loose"] if again else []) + tail
+    if nested_pos and rng.random() < 0.5:
+        argv = head + tail + [f"{pre}=Loose"] + items
+    o = call(p.parse_args, argv)
+    ctx.count("mon.dict_kwargs_dotted_forms")
+    ctx.evaluation(("dict_kwargs-forms", nested_pos, order, again))
+    w = dict(kind="dict_kwargs-dotted", argv=argv)
+    if not explicit.accepted:
+        ctx.violation("class_path", "valid-spec-rejected/explicit-with-dict_kwargs", dict(w, outcome=explicit.brief()))
+        return
+    if not o.accepted:
+        ctx.violation("short-forms", f"short-form-rejected/dict_kwargs-dotted/{order}", dict(w, outcome=o.brief()))
+        return
+    d = same(strip_prov(explicit.value).as_dict(), strip_prov(o.value).as_dict())
+    if d:
+        ctx.violation("short-forms", f"short-form-differs-from-explicit/dict_kwargs-dotted/{order}{'/class-named-again' if again else ''}{'/nested' if nested_pos else ''}", dict(w, explicit=short(explicit.value), short_form=short(o.value), at=d[0], why=d[1]))
+        return
+    if not nested_pos:
+        check_instantiation(ctx, mod, p, o.value, mod.Loose, ia, dk, w)
+    else:
+        mod.CALLS.clear()
+        oi = call(p.instantiate_classes, o.value)
+        got = [c[2] for c in mod.CALLS if c[0] == "Loose"]
+        if not oi.accepted or len(got) != 1 or got[0] != {**ia, **dk}:
+            ctx.violation("instantiate", "nested/child-dict_kwargs-wrong", dict(w, outcome=oi.brief(), received=short(got)))
+
+
+_LATE = {"n": 0}
+
+
+def late_subclass(ctx, i, rng, mod):
+    """a subclass that comes into existence (module written and imported) after name-only lookups for the same declared type
+    already happened in this process: its bare name and its import path denote the same class"""
+    M = mod.__name__
+    p = parser_for(mod.Base, mod)
+    call(p.parse_args, ["--a=SubA"])  # a name-only lookup before the new class exists
+    _LATE["n"] += 1
+    name = f"Late{ctx.shard}x{_LATE['n']}"
+    src = f"from {M} import Base, rec\nclass {name}(Base):\n    def __init__(self, p0: int = 1, late: int = 0):\n        self.p0, self.late = p0, late\n        rec(self, p0=p0, late=late)\n"
+    lm, lpath = programs.write_module(ctx.workdir, src, "c14late")
+    try:
+        cls = getattr(lm, name)
+        ia = {"late": rng.randrange(1, 9)}
+        byname = call(p.parse_args, [f"--a={name}", f"--a.late={ia['late']}"])
+        bypath = call(p.parse_args, [f"--a={lm.__name__}.{name}", f"--a.late={ia['late']}"])
+        ctx.count("mon.subclass_defined_after_first_name_lookup")
+        ctx.evaluation(("late-subclass", i % 3))
+        w = dict(kind="late-subclass", name=name)
+        if not bypath.accepted:
+            ctx.violation("class_path", "valid-spec-rejected/late-subclass-by-path", dict(w, outcome=bypath.brief()))
+            return
+        if not byname.accepted:
+            ctx.violation("short-forms", "short-form-rejected/name-of-a-subclass-defined-after-earlier-lookups", dict(w, outcome=byname.brief()))
+            return
+        d = same(strip_prov(bypath.value).as_dict(), strip_prov(byname.value).as_dict())
+        if d:
+            ctx.violation("short-forms", "short-form-differs-from-explicit/late-subclass", dict(w, explicit=short(bypath.value), short_form=short(byname.value), at=d[0], why=d[1]))
+            return
+        mod.CALLS.clear()
+        oi = call(p.instantiate_classes, byname.value)
+        if not oi.accepted or type(oi.value.a) is not cls or oi.value.a.late != ia["late"]:
+            ctx.violation("instantiate", "late-subclass-not-built-as-configured", dict(w, outcome=oi.brief()))
+    finally:
+        programs.forget(lm, lpath)
 
 
 def two_sources(ctx, rng, mod):
